@@ -350,11 +350,15 @@ def standard_proof_phase(ck, prop_file, need_srcfacts=True):
         errs = re.findall(r'File "([^"]+)", line (\d+)[^\n]*\n(?:[^\n]*\n){0,3}?Error:?[^\n]*', log)
         ck.notes.append('coq build had errors: ' + '; '.join('%s:%s' % e for e in errs[:5]))
         # name the files whose proofs no longer check (the per-theorem audit below only sees their stale .vo)
+    obs = ck.coq_obligations(prop_file)
+    if not ok and any(not o['discharged'] for o in obs):
+        # this property's file no longer compiles: name the files whose proofs broke (the per-theorem audit only sees
+        # their stale .vo). A build error in a file this property does not depend on leaves its obligations discharged
+        # and is not reported here.
         full = re.findall(r'File "([^"]+)", line (\d+)[^\n]*\nError:?([^\n]*(?:\n[^\n]*){0,4})', log)
         for f, ln, msg in full[:3]:
             if 'inconsistent assumptions' not in msg:
                 broken.append('coq build: %s line %s no longer checks: Error: %s' % (f, ln, ' '.join(msg.split())[:300]))
-    obs = ck.coq_obligations(prop_file)
     for o in obs:
         if not o['discharged']:
             broken.append('theorem %s: %s' % (o['name'], o['why']))
